@@ -12,7 +12,8 @@ SHORTS = "abcdfgijklmnopqrstuwyz"
 LONGS = ["input", "input-file", "input-dir", "in", "output", "out", "outfile", "verbose", "value", "val",
          "values", "name", "number", "num", "list", "level", "mode", "max", "maxlen", "quiet", "flag",
          "force", "format", "file"]
-WORDS = ["abc", "x", "hello", "Peter", "Paul", "Mary", "a=b", "v1", "007", "zz-top", "q", "long_value_text", "A"]
+WORDS = ["abc", "x", "hello", "Peter", "Paul", "Mary", "a=b", "v1", "007", "zz-top", "q", "long_value_text", "A",
+         "ABC", "a", "PeTeR", "HELLO"]        # pairs that a case formatter maps onto each other
 
 # pattern checks: patterns inside the subset that Model/Regex.lean parses, each with values that match as a whole
 # (std::regex_match) and values that do not — the generator's own reading of the pattern, checked on the
@@ -60,6 +61,7 @@ class Arg:
         self.allowed = None         # allowed string values
         self.minlen, self.maxlen = 0, 99
         self.pattern = None         # index into PATTERNS (string arguments)
+        self.fmt = None             # value formatter: None, "upper" (addFormat( uppercase())), "lower"
 
     def keyspec(self):
         if self.short and self.long:
@@ -89,7 +91,17 @@ class Arg:
         return 1
 
 
-def gen_config(rng):
+def apply_fmt(a, s):
+    """the value a string destination ends with: the text as typed, passed through the argument's formatter
+    (ASCII letters only: boost::to_upper / to_lower in the "C" locale); the checks are judged on the text as typed"""
+    if a.fmt == "upper":
+        return "".join(chr(ord(c) - 32) if "a" <= c <= "z" else c for c in s)
+    if a.fmt == "lower":
+        return "".join(chr(ord(c) + 32) if "A" <= c <= "Z" else c for c in s)
+    return s
+
+
+def gen_config(rng, fmt_share=0.35):
     n = rng.randint(1, 6)
     shorts = rng.sample(SHORTS, n)
     longs = rng.sample(LONGS, n)
@@ -124,6 +136,8 @@ def gen_config(rng):
                 a.mandatory = True
             if rng.random() < 0.25:
                 a.card = rng.choice(["none", "max:2", "max:3", "max:-1"])
+            if rng.random() < fmt_share / 2:
+                a.fmt = rng.choice(["upper", "lower"])     # invisible for an int (the value converts alike)
         elif a.kind == "str":
             r = rng.random()
             if r < 0.25:
@@ -142,6 +156,8 @@ def gen_config(rng):
                 a.mandatory = True
             if rng.random() < 0.2:
                 a.card = rng.choice(["none", "max:2"])
+            if rng.random() < fmt_share:
+                a.fmt = rng.choice(["upper", "lower"])
         elif a.kind == "level":
             if rng.random() < 0.3:
                 a.hi = rng.randint(2, 5) - 1
@@ -231,6 +247,8 @@ def cfg_lines(args, globs, abbr):
             t.append("sep=" + hx(a.sep))
         if a.init is not None:
             t.append("init=" + (hx(a.init) if a.kind == "str" else a.init))
+        if a.fmt:
+            t.append("fmt=" + a.fmt)
         out.append(" ".join(t))
     for kind, _, spell in globs:
         out.append("pa glob %s %s" % (kind, ";".join(spell)))
@@ -258,7 +276,7 @@ def gen_value(rng, a):
         else:
             cands = [w for w in WORDS if a.minlen <= len(w) <= a.maxlen] or ["x" * a.minlen]
             s = rng.choice(cands)
-        return s, s
+        return s, apply_fmt(a, s)        # (text as typed, what the destination holds)
     raise AssertionError
 
 
@@ -806,11 +824,15 @@ def break_rule(rng, args, globs, uses, abbr):
                     tb = "+" + tb
                 pa, pb = (a, (ta, v)), (b, (tb, v))
             else:
-                common = [w for w in str_candidates(args[a]) if w in str_candidates(args[b])]
-                if not common:
+                # equal AFTER formatting (the constraint compares the destinations): the same word where both
+                # formatters agree on it, or two different words that a formatter maps onto each other
+                pairs = [(wa, wb) for wa in str_candidates(args[a]) for wb in str_candidates(args[b])
+                         if apply_fmt(args[a], wa) == apply_fmt(args[b], wb)]
+                if not pairs:
                     return None
-                w = rng.choice(common)
-                pa, pb = (a, (w, w)), (b, (w, w))
+                diff = [p_ for p_ in pairs if p_[0] != p_[1]]
+                wa, wb = rng.choice(diff) if diff and rng.random() < 0.5 else rng.choice(pairs)
+                pa, pb = (a, (wa, apply_fmt(args[a], wa))), (b, (wb, apply_fmt(args[b], wb)))
             u = [x for x in u if x[0] not in (a, b)] + rng.sample([pa, pb], 2)
         elif kind == "disjoint":
             # the two lists share an element; the lists are built unsorted where the cardinality allows it
